@@ -9,7 +9,11 @@ ASSUMPTIONS = [
     'virtual call, which the engine cannot suspend)',
     'sequential consistency for all atomics',
 ]
-OUTSIDE = ('when_all / when_any and the TaskSet / ConcurrentTaskSet then() overloads are NOT encoded (claim reduced to the then() kernel '
+OUTSIDE = ('STATUS: the concurrent instance (completer || registrar at atomic-operation granularity, which is the one that covers '
+           'a continuation registered DURING completion and the lost-re-check / detach-without-CAS mutants) is written but did not '
+           'fit into 14 GB / 25 minutes and is tier experimental: the delivered tiers decide the then() kernel only at task '
+           'granularity (then() entirely before or entirely after the antecedent\'s run()); '
+           'when_all / when_any and the TaskSet / ConcurrentTaskSet then() overloads are NOT encoded (claim reduced to the then() kernel '
            'over a generic schedulable); more than two continuations on one antecedent; chains of continuations (then().then()); waiters '
            'that run a continuation inline while its antecedent is running elsewhere; schedules needing more execution segments per '
            'thread than the stated scheduler rounds; CAS retry loops iterating more than once per segment; weak-memory reorderings')
@@ -62,7 +66,11 @@ def S(name, regs, pool, tiers, tail=2, cont_get=1):
 
 INSTANCES = [
     # concurrent kernel: completer || registrar at atomic-operation granularity
-    I('then1', 1, 2, 0, 0, thorough={'steps': 3}),
+    # NOT DECIDED: 2 rounds run out of memory (14 GB) in the propositional conversion, see NOTES.md; kept for the next round
+    I('then1', 1, 2, 0, 0, tiers=['experimental']),
+    # the same kernel at task granularity: then() and the antecedent's run() one after the other, order symbolic
+    # (registered before completion / after completion); the "during" ordering needs the concurrent instance
+    S('then1_kernel', 1, 0, ['quick', 'thorough'], tail=0),
     # allocator contract on the then() path (property C11: memory safe / allocator contract): the then-chain link is
     # allocated from the 32-byte class and released to the 8-byte class (future_impl.h:240, nextPow2(sizeof(this))).
     S('then1_order_pool', 1, 1, ['quick', 'thorough'], tail=0),
